@@ -184,6 +184,10 @@ func cmdCheck(args []string) int {
 	if serr != nil {
 		return toolError("%v", serr)
 	}
+	if n := len(w.TagNames); n != w.tagsAtLoad {
+		// the dynamic-type table must be complete before verification starts
+		return toolError("dynamic-type table grew during verification (%d -> %d): %v (pre-registration incomplete)", w.tagsAtLoad, n, w.TagNames[w.tagsAtLoad:])
+	}
 	tGen := time.Since(t0) - tLoad
 	if len(all) == 0 && len(structRes) == 0 {
 		return toolError("no obligations generated for %s (vacuity guard)", *prop)
